@@ -856,3 +856,118 @@ c01h!(c01_hist_sync_opt_plain, sync::Arena, Optimistic, false);
 c01h!(c01_hist_unsync_pess_unify, unsync::Arena, Pessimistic, true);
 // @h props=C01,C10 tier=thorough timeout=1200 bounds=CAP=96,unify,list=None optcover=served_from_a_segment_made_of_an_unaligned_release|refused_with_a_segment_on_the_list
 c01h!(c01_hist_sync_none_unify, sync::Arena, None, true);
+
+// =============================================================================================
+// C16: what a freshly constructed arena looks like, for symbolic reserved / layout / options
+// =============================================================================================
+pub(crate) fn c16_fresh<A: Allocator>() {
+  const CAP: u32 = 112;
+  let reserved: u32 = kani::any();
+  kani::assume(reserved <= 24);
+  let unify: bool = kani::any();
+  let magic: u16 = kani::any();
+  let minseg: u32 = kani::any();
+  let flb: u8 = kani::any();
+  kani::assume(flb <= 2);
+  let fl = match flb {
+    0 => Freelist::None,
+    1 => Freelist::Optimistic,
+    _ => Freelist::Pessimistic,
+  };
+  let opts = Options::new()
+    .with_capacity(CAP)
+    .with_unify(unify)
+    .with_reserved(reserved)
+    .with_magic_version(magic)
+    .with_minimum_segment_size(minseg)
+    .with_freelist(fl)
+    .with_maximum_retries(1);
+  let arena: A = opts.alloc::<A>().unwrap();
+  let want_dofs = if unify { ((reserved + 7) & !7) + 8 + 24 } else { reserved + 1 };
+  assert!(arena.data_offset() == want_dofs as usize, "C16: data_offset() is where the layout contract puts it");
+  assert!(arena.data_offset() == if unify { opts.data_offset_unify::<A>() } else { opts.data_offset::<A>() }, "C16: data_offset() equals Options::data_offset / data_offset_unify");
+  assert!(arena.allocated() == arena.data_offset(), "C16: a fresh arena has handed out nothing");
+  assert!(arena.capacity() == CAP as usize && arena.remaining() == CAP as usize - arena.allocated(), "C16: capacity() and remaining()");
+  assert!(arena.reserved_bytes() == reserved as usize && arena.reserved_slice().len() == reserved as usize, "C16: reserved_slice() has exactly the configured length");
+  assert!(arena.unify() == unify && !arena.read_only(), "C16: unify() / read_only() report the mode");
+  assert!(arena.is_inmemory() && !arena.is_ondisk(), "C16: a Vec-backed arena is in memory, not on disk");
+  assert!(arena.magic_version() == magic && arena.version() == 0, "C16: magic_version() / version()");
+  assert!(arena.minimum_segment_size() == minseg && arena.discarded() == 0 && arena.refs() == 1, "C16: minimum_segment_size(), discarded(), refs() of a fresh arena");
+  assert!(arena.page_size() == 4096, "C16: page_size()");
+  // bytes of the prefix: reserved bytes zero, then (unified layout) the 8 identification bytes exactly at `reserved`
+  let p = arena.raw_ptr();
+  let x: u32 = kani::any();
+  kani::assume(x < CAP);
+  let b = unsafe { rd8(p, x) };
+  if unify {
+    let hdr = ((reserved + 7) & !7) + 8;
+    if x >= reserved && x < reserved + 8 {
+      let want = match x - reserved {
+        0 => 0u8,
+        1 => flb,
+        2 => b'a',
+        3 => b'l',
+        4 => magic.to_le_bytes()[0],
+        5 => magic.to_le_bytes()[1],
+        _ => 0,
+      };
+      assert!(b == want, "C16: the identification bytes (freelist kind, \"al\", magic version, format version) start right after the reserved prefix");
+    } else if x < hdr || x >= hdr + 24 {
+      assert!(b == 0, "C16: every other byte of a fresh arena is zero");
+    }
+    assert!(unsafe { rd64(p, hdr) } == u64::MAX && unsafe { rd32(p, hdr + 8) } == hdr + 24 && unsafe { rd32(p, hdr + 12) } == minseg && unsafe { rd32(p, hdr + 16) } == 0,
+      "C16: the header sits at the first 8-aligned offset after the identification bytes");
+  } else {
+    assert!(b == 0, "C16: every byte of a fresh plain-layout arena is zero");
+  }
+  // the first allocation starts at the first suitably aligned offset at or after data_offset
+  let first = do_alloc::<A, u32>(&arena, Kind::Typed, 0);
+  assert!(first.ok && first.o == up(want_dofs, 4) && first.bo == want_dofs, "C16: the first allocation starts at the first aligned offset at or after data_offset");
+  kani::cover!(unify && reserved % 8 == 3, "unified, reserved not a multiple of 8");
+  kani::cover!(!unify && reserved == 0, "plain, nothing reserved");
+  core::mem::forget(arena);
+}
+// @h props=C16 tier=quick timeout=1200 bounds=CAP=112,reserved<=24:symbolic,unify:symbolic,freelist:symbolic,magic:any
+#[kani::proof]
+#[kani::unwind(10)]
+fn c16_fresh_unsync() {
+  c16_fresh::<unsync::Arena>();
+}
+// @h props=C16 tier=quick timeout=1200 bounds=CAP=112,reserved<=24:symbolic,unify:symbolic,freelist:symbolic,magic:any,retries=1
+#[kani::proof]
+#[kani::unwind(10)]
+fn c16_fresh_sync() {
+  c16_fresh::<sync::Arena>();
+}
+
+// construction fails exactly when the capacity cannot hold the prefix
+// @h props=C16 tier=quick timeout=600 bounds=capacity<=48:concrete-list,reserved<=24:symbolic,unify:symbolic
+#[kani::proof]
+#[kani::unwind(10)]
+fn c16_small_capacity() {
+  let reserved: u32 = kani::any();
+  kani::assume(reserved <= 24);
+  let unify: bool = kani::any();
+  let which: u8 = kani::any();
+  kani::assume(which < 4);
+  let cap: u32 = match which {
+    0 => 1,
+    1 => 24,
+    2 => 32,
+    _ => 48,
+  };
+  let prefix = if unify { ((reserved + 7) & !7) + 8 + 24 } else { reserved + 1 };
+  match Options::new().with_capacity(cap).with_unify(unify).with_reserved(reserved).alloc::<unsync::Arena>() {
+    Ok(a) => {
+      assert!(prefix <= cap, "C16: construction succeeds only if the capacity holds the prefix");
+      core::mem::forget(a);
+    }
+    Err(e) => {
+      assert!(prefix > cap, "C16: construction fails only if the capacity cannot hold the prefix");
+      assert!(matches!(e, Error::InsufficientSpace { .. }), "C16: the error is InsufficientSpace");
+      core::mem::forget(e);
+    }
+  }
+  kani::cover!(prefix == cap, "prefix exactly fills the capacity");
+  kani::cover!(prefix == cap + 1, "one byte short");
+}
